@@ -12,6 +12,29 @@ CHECKS = {
         design="6 C04"),
 }
 
+CHECKS.update({
+    "C01": dict(
+        technique="Coq model of Searcher::visit_dir (gates and queue discipline regenerated from searcher.rs) + refinement proofs to a textbook pre-order/level-order listing; differential test of the binary's exact row sequence against the model on generated trees",
+        text="The walker is modelled state for state (found, visited_inodes, dir_queue, error_count) in model/Walk.v with its gate expressions regenerated from the source by tools/rs2v; theorems relate it to the window-filtered pre-order / level-order listing for all trees, roots and depth windows. On every run the real binary's row sequence on random trees (all entry kinds, root spellings, windows, bfs/dfs) is compared with the model and with an independent recursive listing.",
+        note="Not verified: canonicalize/read_dir/inode uniqueness (kernel), supplied to the model by the observer. Trusted: Coq kernel, rs2v, Python observer.",
+        design="6 C01"),
+    "C05": dict(
+        technique="Coq proof (permutation + sortedness of the TopN buffer under the Criteria comparator, a proved total preorder) + differential test of the real TopN/Criteria (harness) and of the binary's ORDER BY against the model",
+        text="C05_permutation / C05_sorted / C05_cmp_total / C05_cmp_trans hold for every insertion sequence and key list; the real util::TopN<Criteria<String>,String> (through #[path] inclusion) and the binary's ordered output are compared exactly with the model's stable order on generated trees with many ties.",
+        note="Numeric keys restricted to canonical digit strings in the correspondence; key values themselves are C04's subject. Trusted: Coq kernel, harness, Python generators.",
+        design="6 C05"),
+    "C06": dict(
+        technique="Coq proof that the limited TopN buffer equals firstn n of the unlimited one (all insertion sequences) + exhaustive-over-N differential test of the binary",
+        text="C06_topn_prefix is a literal equality proved by induction over the insertion sequence for any comparator; the walker's limit gates are regenerated from the source. For every generated (tree, query) pair every N in 1..M+2 is run on the real binary and compared with the prefix the theorem predicts and with the property's own conditions (count, sub-multiset, key sequence).",
+        note="Unordered LIMIT relies on getdents order being the same in two runs over an unchanged directory. Trusted: Coq kernel, rs2v, harness.",
+        design="6 C06"),
+    "C12": dict(
+        technique="Coq proof that the regex produced by the (regenerated) glob/LIKE tables, interpreted by a verified derivative matcher, decides the textbook glob/LIKE relation for all patterns and subjects + differential test of the binary's eight string operators",
+        text="C12_glob / C12_like hold for every pattern and subject with no side condition (after the fix commits for + { } | \\, LIKE '?', and newline); the matcher is proved correct against its denotational semantics; replacement tables, prefix/suffix and is_glob characters are re-extracted from util/glob.rs on every run. The binary is run on file names over the property's alphabet with derived patterns for all eight operators.",
+        note="(?i) is ASCII case folding in the model; the regex crate's Unicode simple case folding and regex syntax outside the modelled subset are not covered (patterns outside the subset are counted and skipped). Trusted: Coq kernel, rs2v, lexer quoted-string rule (C11).",
+        design="6 C12"),
+})
+
 ALL = ["C%02d" % i for i in range(1, 21)]
 
 
